@@ -413,5 +413,30 @@ pub proof fn lemma_rle_push<T>(e: Seq<(T, usize)>, v: T, n: usize, s: Seq<T>, i:
 //@loop 1| decreases end - j,
 //@before <<<encoded.push(>>>| proof { lemma_rle_push(encoded@, *curr, (j - i) as usize, sequence@, i as int, j as int); }
 
+// ---------------------------------------------------------------- edits.rs annotate: the tags given to a common (NoOp) section
+/// `str::trim` ("Returns a string slice with leading and trailing whitespace removed"); uninterpreted
+pub uninterp spec fn trim_spec(s: Seq<char>) -> Seq<char>;
+pub assume_specification[ str::trim ](s: &str) -> (r: &str)
+    ensures r@ == trim_spec(s@);
+/// C06 "deleting the emphasised parts from both leaves the same text": a section that is common to both lines is
+/// tagged as changed on the removed line exactly when it is tagged as changed on the added line (only a run of
+/// whitespace between two changes may be), and common text that is not whitespace is never tagged as changed
+//@ region src/edits.rs annotate
+//@sig pub fn annotate_noop_section_tags<'a, Annotation: Copy + PartialEq>(minus_section: &'a str, minus_op_prev: Annotation, plus_op_prev: Annotation, noop_deletion: Annotation, deletion: Annotation, noop_insertion: Annotation, insertion: Annotation, x_offset: usize, y_offset: usize, alignment: &Alignment<'a>, annotated_minus_line: &mut Vec<(Annotation, &'a str)>) -> (op: Annotation)
+//@from <<<let is_space = minus_section.trim().is_empty();>>>
+//@until <<<let plus_section = plus_section(n, &mut y_offset); if let Some(non_whitespace)>>>
+//@tail op
+//@| requires eq_is_structural::<Annotation>(),
+//@|     alignment.x@.len() >= 1, alignment.y@.len() >= 1,  // (every token sequence starts with the empty token: tokenize)
+//@|     deletion != noop_deletion, insertion != noop_insertion,
+//@|     minus_op_prev == deletion || minus_op_prev == noop_deletion, plus_op_prev == insertion || plus_op_prev == noop_insertion,
+//@| ensures final(annotated_minus_line)@.len() == old(annotated_minus_line)@.len() + 1,
+//@|     final(annotated_minus_line)@.drop_last() == old(annotated_minus_line)@,
+//@|     final(annotated_minus_line)@.last().1 == minus_section,  // @C06:the.common.section.is.kept.on.the.removed.line
+//@|     (final(annotated_minus_line)@.last().0 == deletion) == (op == insertion),  // @C06:a.common.section.is.emphasised.on.both.lines.or.on.neither
+//@|     final(annotated_minus_line)@.last().0 == deletion || final(annotated_minus_line)@.last().0 == noop_deletion,
+//@|     op == insertion || op == noop_insertion,
+//@|     trim_spec(minus_section@).len() > 0 ==> final(annotated_minus_line)@.last().0 == noop_deletion && op == noop_insertion,  // @C06:common.text.that.is.not.whitespace.is.never.emphasised
+
 } // verus!
 fn main() {}
